@@ -159,3 +159,131 @@ def standard_symbol_problem(m_in, e):
 
 
 RING_AFTER_BRANCH = re.compile(r"\)[-=#/\\:]?(%[0-9][0-9]|[0-9])")
+
+
+# ---------------------------------------------------------------------------
+# O-KEK: which aromatic atoms need a pi bond (standard kinds only), matching existence
+
+
+def aromatic_system(mol):
+    """indices of aromatic atoms and the aromatic bonds (order 1.5) of an O-READ molecule"""
+    abonds = [k for k, b in mol.bonds.items() if b.order == 1.5]
+    atoms = sorted({i for k in abonds for i in k} | {i for i, a in enumerate(mol.atoms) if a.aromatic})
+    return atoms, abonds
+
+
+def pi_need(mol, i):
+    """1 / 0 for the standard aromatic atom kinds, None when the kind is outside the standard list"""
+    a = mol.atoms[i]
+    if not a.aromatic:
+        return None
+    sig = 0
+    narom = 0
+    for (x, y), b in mol.bonds.items():
+        if i in (x, y):
+            if b.order == 1.5:
+                sig += 1
+                narom += 1
+            else:
+                sig += b.order
+    if narom == 0:
+        return None
+    el = a.element
+    if a.isotope is not None or a.chirality is not None:
+        return None
+    if not a.bracket:
+        if el == "C":
+            return 1 if sig <= 3 else (0 if sig == 4 else None)
+        if el in ("N", "P"):
+            return 1 if sig == 2 else (0 if sig == 3 else None)
+        if el in ("O", "S"):
+            return 0 if sig == 2 else None
+        return None
+    tot = sig + (a.hcount or 0)
+    if el == "C" and a.charge == 0:
+        return 1 if tot == 3 else (0 if tot == 4 else None)
+    if el == "N" and a.charge == 0:
+        return 1 if tot == 2 else (0 if tot == 3 else None)
+    if el == "N" and a.charge == 1:
+        return 1 if tot == 3 else (0 if tot == 4 else None)
+    if el in ("O", "S") and a.charge == 0:
+        return 0 if tot == 2 else None
+    return None
+
+
+def has_perfect_matching(nodes, edges):
+    nodes = sorted(nodes)
+    idx = {v: k for k, v in enumerate(nodes)}
+    adj = [0] * len(nodes)
+    for a, b in edges:
+        if a in idx and b in idx:
+            adj[idx[a]] |= 1 << idx[b]
+            adj[idx[b]] |= 1 << idx[a]
+    full = (1 << len(nodes)) - 1
+    memo = {}
+
+    def rec(mask):
+        if mask == full:
+            return True
+        if mask in memo:
+            return memo[mask]
+        i = 0
+        while mask >> i & 1:
+            i += 1
+        cand = adj[i] & ~mask & ~(1 << i)
+        r = False
+        j = 0
+        while cand >> j:
+            if cand >> j & 1 and rec(mask | 1 << i | 1 << j):
+                r = True
+                break
+            j += 1
+        memo[mask] = r
+        return r
+    return rec(0)
+
+
+def kekule_problem(m_in, m_out):
+    """accepted aromatic input: judge the decoded structure (skeleton already compared by compare_mols)"""
+    atoms, abonds = aromatic_system(m_in)
+    for i in atoms:
+        need = pi_need(m_in, i)
+        nd = sum(1 for k in abonds if i in k and m_out.bonds[k].order == 2)
+        if nd > 1:
+            return ("two-double-bonds", "aromatic atom %d %s received %d double bonds in the former aromatic system" % (i, m_in.atoms[i].text, nd))
+        if need is not None and nd != need:
+            return ("pi-bond-count", "aromatic atom %d %s needs %d pi bond(s) in the ring system but received %d" % (i, m_in.atoms[i].text, need, nd))
+    return None
+
+
+def kekulizable(m_in):
+    """True / False for systems of standard kinds only, None otherwise"""
+    atoms, abonds = aromatic_system(m_in)
+    needs = {}
+    for i in atoms:
+        if not any(i in k for k in abonds):
+            continue
+        n = pi_need(m_in, i)
+        if n is None:
+            return None
+        needs[i] = n
+    nodes = [i for i, n in needs.items() if n == 1]
+    return has_perfect_matching(nodes, abonds)
+
+
+def rejectable(m_in, table):
+    """may encoder(strict=True) legitimately reject this aromatic input under `table`?
+    True: yes (not kekulizable / some atom over capacity / non-standard kinds -> not judged); False: it must accept"""
+    k = kekulizable(m_in)
+    if k is not True:
+        return True
+    atoms, abonds = aromatic_system(m_in)
+    for i, a in enumerate(m_in.atoms):
+        sig = 0
+        for (x, y), b in m_in.bonds.items():
+            if i in (x, y):
+                sig += 1 if b.order == 1.5 else b.order
+        need = pi_need(m_in, i) if i in atoms and any(i in kk for kk in abonds) else 0
+        if sig + (need or 0) + (a.hcount or 0) > oread.capacity(table, a):
+            return True
+    return False
